@@ -19,7 +19,11 @@ IDAT = z3.Function("IDAT", z3.IntSort(), Id)
 DOC = z3.Function("DOC", Id, Doc)
 NP = z3.Function("NP", Doc, z3.IntSort())
 KAT = z3.Function("KAT", Doc, z3.IntSort(), KeyS)
-ISSP = z3.Function("ISSP", KeyS, z3.BoolSort())
+FIRST = z3.Function("FIRST", KeyS, z3.StringSort())     # first dotted component of a key
+
+
+def ISSP(k):
+    return FIRST(k) == z3.StringVal("sp")
 NVALS = z3.Function("NVALS", KeyS, z3.IntSort())
 NFIRST = z3.Function("NFIRST", KeyS, z3.IntSort())
 N = z3.Int("n_jobs")
@@ -65,8 +69,8 @@ class SFirstComp(Sym):
         self.k = k
 
     def sym_eq(self, ex, other):
-        if other == "sp":
-            return SBool(ISSP(self.k))
+        if isinstance(other, str):
+            return SBool(FIRST(self.k) == z3.StringVal(other))
         raise Unsupported("comparison of the first key component with this value")
 
 
